@@ -150,7 +150,7 @@ fn single_edits(s: &str) -> Vec<String> {
 pub fn run(tier: Tier) -> i32 {
     let ctx = Ctx::new("C13", tier, "model_checking");
     let quick = ctx.quick();
-    ctx.set_rule("every generated string is parsed by snow and by the reference recogniser: (a) the full product pattern x modifier lists (length <= 3 over psk0-4, psk9, psk10, psk255, fallback, every order) x 36 suites; (b) every single-edit mutation (delete/duplicate/case-flip/replace/insert with separators, digits, pattern letters, NUL, space, 2- and 3-byte UTF-8) of valid names; (c) all strings of length <= 6 (thorough 7) over {N,K,X,I,1,p,s,k,0,+} as the handshake field; (d) field-count variations; accept iff recognised, components and verbatim name equal, rejection is Error::Pattern. states = distinct strings");
+    ctx.set_rule("every generated string is parsed by snow and by the reference recogniser: (a) the full product pattern x modifier lists (length <= 3 over psk0-4, psk9, psk10, psk255, fallback, every order) x 36 suites; (b) every single-edit mutation (delete/duplicate/case-flip/replace/insert with separators, digits, pattern letters, NUL, space, 2- and 3-byte UTF-8) of valid names, and every substring of 2..=8 bytes doubled in place or removed; (c) all strings of length <= 6 (thorough 7) over {N,K,X,I,1,p,s,k,0,+} as the handshake field; (d) field-count variations; accept iff recognised, components and verbatim name equal, rejection is Error::Pattern. states = distinct strings");
     let outcomes = std::sync::Mutex::new(std::collections::BTreeMap::<&'static str, u64>::new());
     let eval = |s: &str| {
         ctx.add(&ctx.evaluations, 1);
@@ -198,6 +198,27 @@ pub fn run(tier: Tier) -> i32 {
         }
     });
     ctx.count("b_single_edit_mutations", nb.load(std::sync::atomic::Ordering::Relaxed));
+    // (b') multi-character edits: every substring of 2..=8 bytes doubled in place ("pskpsk0", "Noise_Noise_",
+    // "psk0+psk0+") and removed, on every 3rd of those names
+    let nb2 = std::sync::atomic::AtomicU64::new(0);
+    seeds.par_iter().step_by(3).for_each(|s| {
+        let b = s.as_bytes();
+        for len in 2..=8usize {
+            for i in 0..=b.len().saturating_sub(len) {
+                let mut dup = b[..i + len].to_vec();
+                dup.extend_from_slice(&b[i..]);
+                let mut del = b[..i].to_vec();
+                del.extend_from_slice(&b[i + len..]);
+                for m in [dup, del] {
+                    if let Ok(m) = String::from_utf8(m) {
+                        tally(eval(&m));
+                        nb2.fetch_add(1, std::sync::atomic::Ordering::Relaxed);
+                    }
+                }
+            }
+        }
+    });
+    ctx.count("b2_substring_doublings_and_removals", nb2.load(std::sync::atomic::Ordering::Relaxed));
     // (c) all short strings in the handshake field
     let alpha = ['N', 'K', 'X', 'I', '1', 'p', 's', 'k', '0', '+'];
     let maxlen = if quick { 6 } else { 7 };
